@@ -6,6 +6,9 @@ import JominiModel.Proofs.TextTapeCut
 import JominiModel.Proofs.TextTapeInv
 import JominiModel.Proofs.TextTapeScalars
 import JominiModel.Proofs.TextTapeFaithful
+import JominiModel.Proofs.TextTapeTotal
+import JominiModel.Proofs.TextTapeFaithful2
+import JominiModel.Proofs.TextTapeFaithful3
 import JominiModel.Generated.Tables
 /-
 C01 — Text tape mirrors the document's structure regardless of layout.
@@ -55,14 +58,21 @@ example : Blank [32, 59, 13, 10, 35, 99, 123, 10, 9] :=
 
 /-- an optional UTF-8 BOM only sets the flag: the tape (scalar bytes and their positions, which
 the model keeps relative to the end of the input) is the tape of the rest.
-Hypotheses: `d` does not itself start with a second BOM, and the parse of `d` does not hit a
-panic site (the only use is `offset - 1` at offset 0, which shifts with the BOM). -/
-theorem C01_bom (d : Bytes) (hb : hasBom d = false) (hp : parse d ≠ .panic) :
+Hypothesis: `d` does not itself start with a second BOM (only the first one is stripped). -/
+theorem C01_bom (d : Bytes) (hb : hasBom d = false) :
     parse (0xef :: 0xbb :: 0xbf :: d) = (parse d).withBom true :=
-  parse_bom d hb hp
+  parse_bom' d hb
 
 /-- `a=b` -/
-example : hasBom [97, 61, 98] = false ∧ parse [97, 61, 98] ≠ .panic := by decide +kernel
+example : hasBom [97, 61, 98] = false := by decide +kernel
+
+/-- the model is total on every input: it returns a tape or an error — none of its explicit
+panic outcomes (`len()-1`, `offset-1`, `tape[i]`, `split_at`, `&d[1..]`) is reachable and the
+fuel `2|d|+4` is enough (every iteration consumes input or moves from KeyValueSeparator /
+ParseOpen to a state that does). -/
+theorem C01_parse_total (input : Bytes) :
+    (∃ T b, parse input = .ok T b) ∨ (∃ e, parse input = .err e) :=
+  parse_total input
 
 /-
 Full statement (DESIGN §8 C01): `step st (w ++ d) = step st d` at EVERY point where the code
@@ -98,10 +108,15 @@ of objects, empty containers, headers, parameter blocks, mixed containers, optio
                              parse (render L ls) = parse (render L' ls)             (up to positions)
 Proved so far: fragment 1 = flat documents (top-level `key op value` fields, all 8 operators,
 quoted scalars with escapes, unquoted scalars, any valid blank layout incl. comments, `;`, CR/LF,
-tight gaps where lexically permitted).  Missing fragments: containers (objects, arrays, empty
-containers, optional `=`), headers, parameter blocks, mixed containers, `@[..]` variables, BOM in
-front of a document (C01_bom covers it separately).  These are decided by the correspondence run
-and the layout/faithfulness oracles only.
+tight gaps where lexically permitted); fragment 2 = the same with nested non-empty objects of any
+depth as values (`key op { fields }`, incl. `?=` / `!=` on the first field); fragment 3 = values
+are scalars, empty containers `{}`, objects, and arrays of scalars / objects / arrays / empty
+containers, nested to any depth (the structure of save files), fields written with or without
+the optional `=` before `{` (`a={..}` and `a{..}` have the same content), ghost `{}` in key
+position.  Missing fragments: ghost `{}` at the start of a container, headers (`rgb {..}`),
+parameter blocks, object→array mixed containers, `@[..]` variables and unquoted scalars starting
+with `@`, BOM in front of a document (C01_bom covers it separately).  These are decided by the
+correspondence run and the layout/faithfulness oracles.
 -/
 /-- fragment 1 of C01_faithful: a flat document under ANY valid layout parses to a tape that is,
 up to the scalar positions, exactly the document's keys, operators and scalar bytes (quoted vs
@@ -128,6 +143,53 @@ theorem C01_layout_independent_flat_partial (fs fs' : List LField) (gt gt' : Byt
     ∃ T T', parse (renderFlat fs gt) = .ok T false ∧ parse (renderFlat fs' gt') = .ok T' false ∧
       T.map Tok.erase = T'.map Tok.erase :=
   layout_independent_flat fs fs' gt gt' hv hv' hb hb' hc
+
+/-- fragment 2 of C01_faithful: a document of nested objects under ANY valid layout parses to a
+tape that is, up to the scalar positions, exactly the document's content with the object
+boundaries and their `end` links. -/
+theorem C01_faithful_nested_partial (fs : LFields) (gt : Bytes) (hgt : Blank gt) (hv : ValidF fs gt)
+    (hb : hasBom (renderF fs ++ gt) = false) :
+    ∃ T, parse (renderF fs ++ gt) = .ok T false ∧ T.map Tok.erase = ctapeF (contentFs fs) 0 :=
+  faithful_nested fs gt hgt hv hb
+
+/-- fragment 2 of C01_layout_independent. -/
+theorem C01_layout_independent_nested_partial (fs fs' : LFields) (gt gt' : Bytes)
+    (hgt : Blank gt) (hgt' : Blank gt') (hv : ValidF fs gt) (hv' : ValidF fs' gt')
+    (hb : hasBom (renderF fs ++ gt) = false) (hb' : hasBom (renderF fs' ++ gt') = false)
+    (hc : contentFs fs = contentFs fs') :
+    ∃ T T', parse (renderF fs ++ gt) = .ok T false ∧ parse (renderF fs' ++ gt') = .ok T' false ∧
+      T.map Tok.erase = T'.map Tok.erase :=
+  layout_independent_nested fs fs' gt gt' hgt hgt' hv hv' hb hb' hc
+
+/-- fragment 3 of C01_faithful: fields whose values are scalars, empty containers, objects and
+arrays (of scalars, objects, arrays, empty containers) nested to any depth, under ANY valid
+layout: the tape is, up to the scalar positions, exactly the document's keys, operators, scalar
+bytes (quoted vs unquoted), container kinds (object / array) and nesting (`end` links). -/
+theorem C01_faithful_tree_partial (fs : JFields) (gt : Bytes) (hgt : Blank gt) (hv : JValidF fs gt)
+    (hb : hasBom (jrenderF fs ++ gt) = false) :
+    ∃ T, parse (jrenderF fs ++ gt) = .ok T false ∧ T.map Tok.erase = ktapeF (kcontentF fs) 0 :=
+  faithful_tree fs gt hgt hv hb
+
+/-- fragment 3 of C01_layout_independent. -/
+theorem C01_layout_independent_tree_partial (fs fs' : JFields) (gt gt' : Bytes)
+    (hgt : Blank gt) (hgt' : Blank gt') (hv : JValidF fs gt) (hv' : JValidF fs' gt')
+    (hb : hasBom (jrenderF fs ++ gt) = false) (hb' : hasBom (jrenderF fs' ++ gt') = false)
+    (hc : kcontentF fs = kcontentF fs') :
+    ∃ T T', parse (jrenderF fs ++ gt) = .ok T false ∧ parse (jrenderF fs' ++ gt') = .ok T' false ∧
+      T.map Tok.erase = T'.map Tok.erase :=
+  layout_independent_tree fs fs' gt gt' hgt hgt' hv hv' hb hb' hc
+
+/-- the hypotheses are satisfiable: `a={1 {b=c} {}} d={{x}}⏎`. -/
+example : JValidF exampleTree [10] ∧ Blank [10] ∧ hasBom (jrenderF exampleTree ++ [10]) = false :=
+  exampleTree_valid
+
+/-- the hypotheses are satisfiable: `a={b="x" c<{d=e}}⏎`. -/
+example : ValidF exampleNested [10] ∧ Blank [10] ∧ hasBom (renderF exampleNested ++ [10]) = false :=
+  exampleNested_valid
+
+/-- and its parse is the tape the theorem predicts. -/
+example : parse (renderF exampleNested ++ [10]) = .ok (tapeF exampleNested 0 [10]) false := by
+  decide +kernel
 
 /-- the hypotheses are satisfiable: `a ?= #x⏎"b\"c"⏎`. -/
 example : ValidFlat exampleFlat [10] ∧ hasBom (renderFlat exampleFlat [10]) = false := exampleFlat_valid
